@@ -6,13 +6,14 @@ TESTS=0
 if [ "$1" = "--tests" ]; then TESTS=1; shift; fi
 PATCH="$1"; shift
 IDS="$*"
-cd /verif
-if [ -n "$(git -C /repo status --porcelain --untracked-files=no)" ]; then echo "repo dirty"; exit 3; fi
-trap 'git -C /repo checkout -- . 2>/dev/null' EXIT
-PATCH=$(realpath "$PATCH"); if ! git -C /repo apply "$PATCH"; then echo "APPLY-FAILED $PATCH"; exit 3; fi
+V="$(cd "$(dirname "$0")/.." && pwd)"; REPO="${VERIF_REPO:-/repo}"
+cd "$V"
+if [ -n "$(git -C $REPO status --porcelain --untracked-files=no)" ]; then echo "repo dirty"; exit 3; fi
+trap 'git -C $REPO checkout -- . 2>/dev/null' EXIT
+PATCH=$(realpath "$PATCH"); if ! git -C $REPO apply "$PATCH"; then echo "APPLY-FAILED $PATCH"; exit 3; fi
 name=$(basename "$PATCH" .diff)
 if [ $TESTS = 1 ]; then
-  if (cd /repo && cargo test --workspace --no-fail-fast --offline >/tmp/mut_tests.log 2>&1); then echo "$name: repo tests PASS"; else echo "$name: repo tests FAIL (not a valid mutant)"; grep -E "^test .* FAILED|panicked" /tmp/mut_tests.log | head -5; fi
+  if (cd $REPO && cargo test --workspace --no-fail-fast --offline >/tmp/mut_tests.log 2>&1); then echo "$name: repo tests PASS"; else echo "$name: repo tests FAIL (not a valid mutant)"; grep -E "^test .* FAILED|panicked" /tmp/mut_tests.log | head -5; fi
 fi
 for id in $IDS; do
   t0=$(date +%s.%N)
